@@ -406,6 +406,49 @@ fn cases(mode: &str) -> Vec<Case> {
                 }
             }
             if mode == "thr" {
+                // the property's own characterisation on systematic sequences: 2 or 3 numbers (small / large, cardinal / ordinal) with a
+                // comma, nothing, an ordinary word or a period between them: a number recognised at threshold 0 is reported at
+                // threshold 10 exactly when it is not small or has a neighbour of its kind (commas ignored, word and period break)
+                let items: [(&str, [&str; 6]); 2] = [("en", ["two", "five", "first", "third", "twenty", "thirtieth"]), ("fr", ["deux", "cinq", "premier", "troisième", "vingt", "trentième"])];
+                let seps = [",", "", "pomme", "."];
+                for (code, its) in items {
+                    let mut seqs: Vec<Vec<String>> = Vec::new();
+                    for a in its { for s1 in seps { for b in its {
+                        let mut v = vec![a.to_string()]; if !s1.is_empty() { v.push(s1.to_string()); } v.push(b.to_string());
+                        seqs.push(v.clone());
+                        for s2 in seps { for c in its {
+                            let mut w = v.clone(); if !s2.is_empty() { w.push(s2.to_string()); } w.push(c.to_string());
+                            seqs.push(w);
+                        } }
+                    } } }
+                    for sq in seqs {
+                        let c = code.to_string();
+                        out.push(Case {
+                            descr: serde_json::json!({"mode":"thr","lang":code,"tokens":sq.join(" "),"threshold":10.0}),
+                            run: guard(move || {
+                                let l = lang(&c);
+                                let ts: Vec<Tok> = sq.iter().map(|w| Tok::w(w)).collect();
+                                let all = find_numbers(ts.clone().into_iter(), &l, 0.0);
+                                let at = find_numbers(ts.clone().into_iter(), &l, 10.0);
+                                let breaker = |a: usize, b: usize| ts[a..b].iter().any(|t| t.text == "pomme" || t.text == ".");
+                                for (k, o) in all.iter().enumerate() {
+                                    let digits = o.text.chars().filter(|ch| ch.is_ascii_digit()).count();
+                                    let small = o.value < 10.0 && (digits == 1 || o.is_ordinal);
+                                    let left = k > 0 && all[k - 1].is_ordinal == o.is_ordinal && !breaker(all[k - 1].end, o.start);
+                                    let right = k + 1 < all.len() && all[k + 1].is_ordinal == o.is_ordinal && !breaker(o.end, all[k + 1].start);
+                                    let want = !small || left || right;
+                                    let got = at.iter().any(|x| x.start == o.start && x.end == o.end && x.text == o.text);
+                                    if want != got {
+                                        return Some(format!("tokens {:?}: {:?} is {} at threshold 10 (recognised at threshold 0: {:?}; reported at 10: {:?}); it is {}small and has {} neighbour of its kind",
+                                            sq, (o.start, o.end, &o.text), if got { "reported" } else { "left in words" }, occs(&all), occs(&at), if small { "" } else { "not " }, if left || right { "a" } else { "no" }));
+                                    }
+                                }
+                                if at.len() > all.len() { return Some(format!("tokens {:?}: more numbers at threshold 10 than at threshold 0", sq)); }
+                                None
+                            }),
+                        });
+                    }
+                }
                 // linking words keep small numbers together whatever their case
                 for (code, text, want) in [("en", "ONE AND TWO", "1 AND 2"), ("en", "one Plus two", "1 Plus 2"), ("fr", "UN ET DEUX", "1 ET 2")] {
                     let (c, t, w) = (code.to_string(), text.to_string(), want.to_string());
